@@ -14,7 +14,8 @@ EXTENDS L2Env
 
 IsS == cfg.fam = "wait_until_stream"
 FsInit(c) == [state |-> "started"]
-Init == \E c \in Cfgs : InitEnv(c, 2, FsInit(c))
+InitFor(c) == InitEnv(c, 2, FsInit(c))
+Init == \E c \in Cfgs : InitFor(c)
 
 PollBegin ==
   /\ pc = "begin" /\ fs.state # "completed"        \* (future: panics when polled after completing)
